@@ -181,7 +181,13 @@ def apply_op(xm, views, o):
         return None, try_(f)[1]
     if n == "add":
         ps = [mk_phase(p) for p in o["phases"]]
-        return None, try_(lambda: xm.phases.add(ps[0] if len(ps) == 1 and o.get("bare") else ps))[1]
+        if o.get("as_phase_list") and len({p.name for p in ps}) == len(ps):
+            # the phases handed over as a PhaseList object (its own ids are ignored by `add`, like those of a list)
+            from orix.crystal_map import PhaseList
+            arg = PhaseList(ps)
+        else:
+            arg = ps[0] if len(ps) == 1 and o.get("bare") else ps
+        return None, try_(lambda: xm.phases.add(arg))[1]
     if n == "deli":
         def f():
             del xm.phases[o["id"]]
@@ -727,7 +733,7 @@ def gen_ops(rng, c, length):
             if k == 2 and rng.integers(5) == 0:
                 ps[1][0] = ps[0][0]
             dup = any(p[0] in names for p in ps) or (k == 2 and ps[0][0] == ps[1][0])
-            o = {"op": "add", "phases": ps, "bare": bool(k == 1 and rng.integers(2))}
+            o = {"op": "add", "phases": ps, "bare": bool(k == 1 and rng.integers(2)), "as_phase_list": bool(rng.integers(3) == 0)}
             st = "phaselist/add" + ("/duplicate-name" if dup else "")
         elif r < 84:
             used = set(int(p) for p in xm._phase_id)
